@@ -808,7 +808,13 @@ func (fx *FnExec) instr(in ssa.Instruction) error {
 		}
 		fx.set(x, r)
 	case *ssa.Go:
-		fx.abstract("go statement: spawned call is not executed here")
+		// the spawned call is modelled as a call made at the spawn point: its contract's effects (in particular the
+		// ghost log of who was invoked) apply once; what the goroutine does later, interleaved with the spawner, is
+		// not modelled (no shared-memory reasoning is claimed anywhere on top of this)
+		fx.notes = append(fx.notes, "go statement modelled as a call at the spawn point (interleaving not modelled)")
+		if _, err := fx.call(x, x.Common(), x.Pos()); err != nil {
+			return err
+		}
 	case *ssa.Defer:
 		fx.defers = append(fx.defers, x)
 	case *ssa.RunDefers:
